@@ -195,6 +195,21 @@ def run(ctx):
             case, o = index[si * shard + j]
             ctx.report({'clause': 'correspondence'}, {'case': case, 'observed': o},
                        'the protocol / wrapper model (C08/AGen.v) and CPython / beartype disagree')
+    # wrappers of another kind than what they wrap (a coroutine / generator / async generator / plain functools.wraps wrapper
+    # around a plain function, a generator, a coroutine, an async generator): the decorated wrapper is of the wrapper's kind
+    try:
+        xrows = run_impl('c08_crosskind.py', {}, timeout=300)
+    except Exception as e:  # noqa
+        xrows = [{'error': str(e)[-600:], 'wrapper': 'crash', 'inner': ''}]
+    ctx.evaluations += len(xrows)
+    ctx.extra['cross_kind_rows'] = len(xrows)
+    for r in xrows:
+        if 'error' in r or r['kind_undecorated'] != r['kind_decorated'] or r['undecorated'] != r['decorated']:
+            failures += 1
+            ctx.report({'clause': 'cross_kind_wrapper', 'wrapper': r.get('wrapper'), 'inner': r.get('inner')}, r,
+                       'a decorated wrapper around a callable of another kind differs from the undecorated wrapper')
+            if failures > 12:
+                break
     if proof_err is not None and not failures:
         ctx.broken(f'{PROP} ({proof_err.what})', proof_err.log)
 
@@ -203,5 +218,12 @@ def replay(ctx, path):
     with open(path) as f:
         body = json.load(f)
     case = body['record'].get('case')
+    if body['record'].get('wrapper') and 'inner' in body['record']:
+        for r in run_impl('c08_crosskind.py', {}, timeout=300):
+            if r.get('wrapper') == body['record']['wrapper'] and r.get('inner') == body['record']['inner']:
+                print(json.dumps(r))
+                if 'error' in r or r['kind_undecorated'] != r['kind_decorated'] or r['undecorated'] != r['decorated']:
+                    ctx.report(body.get('shape') or {'clause': 'cross_kind_wrapper'}, r, 'the wrapper still differs')
+        return
     if case:
         print(json.dumps(run_impl('c08_impl.py', {'cases': [case]})[0])[:3000])
